@@ -37,7 +37,7 @@ def layouts_for(ctx, n_random, dtypes=('f8',), max_dims=3, max_size=4, max_elems
              ([2, 1, 3], [1, 2, 0]), ([1, 2], [0, 1]), ([2, 2, 2], [1, 0, 2]), ([4], [0]), ([1, 3, 1, 2], [3, 0, 1, 2])]
     for i, (sz, od) in enumerate(fixed):
         sz2, od2 = fixed[(i * 3 + 1) % len(fixed)]
-        lays.append(gen.Layout(sz, od, sz2, od2, dtype=dtypes[i % len(dtypes)], vkind=i % 2))
+        lays.append(gen.Layout(sz, od, sz2, od2, dtype=dtypes[i % len(dtypes)], vkind=i % 4))
     for _ in range(n_random):
         lays.append(gen.random_layout(rng, max_dims=max_dims, max_size=max_size, max_elems=max_elems, dtypes=dtypes))
     if extra_exhaustive:
@@ -45,8 +45,8 @@ def layouts_for(ctx, n_random, dtypes=('f8',), max_dims=3, max_size=4, max_elems
         for i, (sz, od) in enumerate(sides):
             sz2, od2 = sides[(i * 7 + 3) % len(sides)]
             if int(np.prod(sz)) * int(np.prod(sz2)) <= 400:
-                lays.append(gen.Layout(sz, od, sz2, od2, dtype=dtypes[i % len(dtypes)], vkind=i % 2))
-                lays.append(gen.Layout(sz2, od2, sz, od, dtype=dtypes[(i + 1) % len(dtypes)], vkind=(i + 1) % 2))
+                lays.append(gen.Layout(sz, od, sz2, od2, dtype=dtypes[i % len(dtypes)], vkind=i % 4))
+                lays.append(gen.Layout(sz2, od2, sz, od, dtype=dtypes[(i + 1) % len(dtypes)], vkind=(i + 1) % 4))
     return lays
 
 
